@@ -485,6 +485,30 @@ theorem dial_string_stable (w : World) (i : Nat) (s : String) (hinv : Inv env po
       · rw [step_done env pol inp rs w i (by rw [← hei]; exact hdone)]; exact h
       · rw [step_covertOf_other env pol inp rs w i _ hei]; exact h
 
+/-- **Valid ⇒ the covert is the checked literal, at the register step and ever after.**  Any number of workers,
+any interleaving, *every* prefix of it — in particular the very step in which `register` sets `Valid` and
+announces the registration to the detector, and every moment from then on at which `GetRegistrations` would
+return it: the `Covert` field of the stored object is already the accepted output of the admission check of that
+object's own covert string, i.e. the literal of an address the policy does not forbid.  (The overwrite
+`reg.Covert = covert` precedes `AddRegistration`; `dial_dominated_by_admission` reads that order off the code.) -/
+theorem valid_implies_checked_covert (raw : Nat → String) (c : Nat) (sched : List Nat) (e : Entry)
+    (hst : (runSched env pol inp rs (World.init raw c) sched).store = some e) (hv : e.valid = true) :
+    ∃ n host port ip, (inp.ans e.ptr).split = some (host, port) ∧ rs n = .addr (some ip) "" ∧
+      env.unspecified ip = false ∧ ¬ Forbids env pol ip ∧
+      (∀ p ∈ pol.domains, env.matchString p host = false) ∧
+      (runSched env pol inp rs (World.init raw c) sched).covertOf e.ptr = (parseOrResolve env pol (inp.ans e.ptr) rs n).out ∧
+      (runSched env pol inp rs (World.init raw c) sched).covertOf e.ptr = joinHostPort (env.ipText ip) port := by
+  have hinv := inv_run env pol inp rs sched _ (inv_init env pol inp rs raw c)
+  obtain ⟨_, n, hne, heq⟩ := hinv.valid e hst hv
+  obtain ⟨host, port, ip, hs, _, hd, hr, hu, hf, hout⟩ := accepted_is_permitted_literal env pol (inp.ans e.ptr) rs n hne
+  exact ⟨n, host, port, ip, hs, hr, hu, hf, hd, heq, by rw [heq, hout]⟩
+
+/-- the step that marks the entry valid: a worker at `beforeRegister` has already overwritten its object -/
+theorem register_step_finds_checked_covert (w : World) (i : Nat) (hinv : Inv env pol inp rs w)
+    (hpc : w.pc i = .beforeRegister) :
+    Checked env pol inp rs w i ∧ ∃ v, w.store = some ⟨i, v⟩ :=
+  ⟨hinv.ready i hpc, hinv.owner i (Or.inr hpc)⟩
+
 /-! ### the dial-back of connecting transports -/
 
 /-- worker `i` is finished and its object holds the accepted output of its own admission check -/
@@ -636,6 +660,26 @@ theorem early_dialback_dials_unchecked_covert :
   refine ⟨?_, ?_, ?_⟩ <;>
   simp [launchedEarly, runSched, step, World.init, World.dialString, updateAt, parseOrResolve, inp0, ans0, rsTwo, env0, pol0,
     isBlocklistedCovertDomain, raw0]
+/-- a worker whose covert is a host name that resolves to a permitted address -/
+def inpName : Inputs :=
+  { ans := fun _ => { ans0 with split := some ("ok.test", "443"), hostIsIP := false }, passes := fun _ => true }
+def rawName : Nat → String := fun _ => "ok.test:443"
+-- in the code as it is, the entry is marked valid with the checked literal in place …
+example : (runSched env0 pol0 inpName rs0 (World.init rawName 0) [0, 0, 0, 0]).dialString
+    = some (joinHostPort "198.51.100.7" "443") := by
+  simp [runSched, step, World.init, World.dialString, updateAt, registerStep, parseOrResolve, inpName, ans0, rs0, env0,
+    pol0, isBlocklistedCovertDomain, isBlocklistedCovertAddr, addrText, joinHostPort_ne_empty]
+/-- **Why the overwrite has to come before `AddRegistration`**: with `reg.Covert = covert` moved behind it, the
+entry is marked valid (announced, returned by `GetRegistrations`) while the object still holds the client's
+host name; a connection matched at that moment hands the name to `net.Dial`, which resolves it again — with
+whatever the resolver answers then. -/
+theorem late_overwrite_visible_with_unchecked_covert :
+    (runSchedLateOverwrite env0 pol0 inpName rs0 (World.init rawName 0) [0, 0, 0, 0]).dialString = some "ok.test:443" ∧
+    ∀ (L : DialLib Unit) (rs' : Resolver Unit) (m : Nat), L.splitHostPort "ok.test:443" = some ("ok.test", "443") →
+      L.parseIP "ok.test" = none → netDial L "ok.test:443" rs' m = (.resolved (rs' m) "443", m + 1) := by
+  refine ⟨?_, fun L rs' m hs hp => name_is_resolved_at_dial L _ _ _ rs' m hs hp⟩
+  simp [runSchedLateOverwrite, stepLateOverwrite, step, World.init, World.dialString, updateAt, registerStep, parseOrResolve,
+    inpName, ans0, rs0, env0, pol0, isBlocklistedCovertDomain, isBlocklistedCovertAddr, addrText, joinHostPort_ne_empty, rawName]
 -- the dial of that string consumes no resolver answer
 def L0 : DialLib Unit :=
   { splitHostPort := fun s => if s = joinHostPort "198.51.100.7" "443" then some ("198.51.100.7", "443") else none,
